@@ -102,10 +102,18 @@ def report_value_mismatches(st, monitor, mism, context):
     for at in range(0, len(mism), CHUNK):
         part = mism[at:at + CHUNK]
         pos0, w0, o0, e0 = part[0]
+        # diagnostic only: the first mismatch that is off the most common observed/stored ratio of this chunk
+        ratios = [round(o / e, 10) if e else None for _, _, o, e in part]
+        common = max(set(ratios), key=ratios.count)
+        odd = next((k for k, r in enumerate(ratios) if r != common), None)
+        extra = ''
+        if odd is not None:
+            po, wo, oo, eo = part[odd]
+            extra = '; most are off by the ratio %r, but at %s bytes %s read as %r, stored number is %r' % (common, po, wo.hex(), oo, eo)
         st.violation(monitor, 'value-mismatch',
-                     '%d value(s) differ from the IBM number of their four bytes, first at %s: bytes %s read as %r, stored number is %r' % (
-                         len(part), pos0, w0.hex(), o0, e0),
-                     dict(context, positions=[p for p, _, _, _ in part], words=b''.join(w for _, w, _, _ in part),
+                     '%d value(s) differ from the IBM number of their four bytes, first at %s: bytes %s read as %r, stored number is %r%s' % (
+                         len(part), pos0, w0.hex(), o0, e0, extra),
+                     dict(context, common_ratio=common, first_off_ratio=odd, positions=[p for p, _, _, _ in part], words=b''.join(w for _, w, _, _ in part),
                           observed_hex=[float(o).hex() for _, _, o, _ in part], expected_hex=[float(e).hex() for _, _, _, e in part]))
 
 
